@@ -12,6 +12,7 @@ GEN = [('Gen/Mutators.v', c28_scan.generate)]
 TRUSTED = [
     'tools/c28_scan.py: the mutator names of list / dict are derived from the running CPython (every name of dir() is called on samples), the wrapped '
     'method tables are read with ast from ormtypes.py on every run (Gen/Mutators.v); the scan refuses files it does not recognise',
+    'Model/C28Multi.v: several owners (2 objects x 2 Json attributes in the harness) with copy-on-store between them, tied by the same whole-trace comparison',
     'hand-written model Model/C28Tracked.v (TrackedValue.make, tracked_method, list / dict semantics, write bit, commit, reload with sorted keys), tied by '
     'vm_compute comparison of whole state traces (value tree with per-container tracking tags, write bit, stored JSON text) with real Pony on SQLite',
     'the harness tools/c28_impl.py (observation of tracking tags via obj_ref()/attr, write bit via obj._wbits_, raw column read on the session connection)',
@@ -23,7 +24,8 @@ ASSUMPTIONS = [
     'a handle to a container that was removed from the document is outside the model)',
     'lst *= n with n >= 2 on a list that holds containers makes the copies share them (aliasing): outside the tree model, not generated',
     'extended slices (step != 1), sort(key=...) and list.sort on mixed-type lists are exercised by the search only, not in the Coq model',
-    'TrackedArray is modelled as a TrackedList of ints with the method table TrackedArray exposes; item validation errors are checked by the harness only',
+    'TrackedArray is modelled as a TrackedList of ints with the method table TrackedArray exposes; item validation (Int / Str / Float arrays, 7 mutating forms, valid and wrong-typed items) is checked by the search only',
+    'a value assigned through the Json wrapper is the wrapped value (fix 50830fa): checked by the search; whole-attribute assignment itself belongs to C07',
     'values move between owners only through the storing methods (which copy via TrackedValue.make); whole-attribute assignment obj.j = other.j[..] is not in the operation language',
     'the object is alive and its session is open (tracked_method skips everything for a dead weakref; a closed session raises)',
 ]
@@ -743,7 +745,7 @@ LEVEL_TEXT = ('Machine-checked proof (Coq 8.16.1) over a model of Pony\'s tracke
               'another keep every container bound to exactly its own owner. Typed arrays (Int / Str / Float) validate items on every mutator (search). A value '
               'assigned through the Json wrapper is stored and tracked as the wrapped value (fix 50830fa; search).')
 LEVEL_NOTE = ('Trusted: Coq kernel + vm_compute; the ast scan of ormtypes.py; the hand-written model, tied to real Pony on SQLite by whole-trace vm_compute comparison '
-              '(tracking tag of every container, write bit, stored text). Not modelled: floats / tuples, extended slices, sort(key=), handles to detached containers; '
+              '(tracking tag of every container, write bit, stored text). No known finding remains (fixes f0ecc86 and 50830fa are committed). Not modelled: floats / tuples, extended slices, sort(key=), aliasing through lst *= n, handles to detached containers; '
               'other providers than SQLite.')
 TECHNIQUE = 'Coq invariant proof by induction over operation sequences and paths (nested-inductive value trees); tables scanned from source and the running CPython; vm_compute trace correspondence; model-free commit/reload search'
 DESIGN_REF = 'DESIGN.md section 5, C28'
